@@ -2,7 +2,7 @@
 From Coq Require Extraction.
 From Coq Require Import ExtrOcamlBasic.
 From Coq Require Import NArith ZArith List.
-From PTQ Require Import Base.Bytes Base.Result Base.Bits Base.Sha256 Spec.Crc Model.Crc Model.Cell Spec.CellRepr Model.Inst Model.Builder Model.Typed Spec.TlbPrim Spec.TlbVal Model.Hashmap Spec.Hashmap.
+From PTQ Require Import Base.Bytes Base.Result Base.Bits Base.Sha256 Spec.Crc Model.Crc Model.Cell Spec.CellRepr Model.Inst Model.Builder Model.Typed Spec.TlbPrim Spec.TlbVal Model.Hashmap Spec.Hashmap Model.Address.
 
 Extraction "Extract/model.ml"
   N.add N.mul N.of_nat N.to_nat Z.add Z.mul Z.opp Z.of_N Z.to_N
@@ -15,4 +15,5 @@ Extraction "Extract/model.ml"
   b_store_snake s_load_snake b_store_cell b_store_slice b_store_string s_skip s_load_ref s_to_cell
   s_enc s_refs_of tval_ok sop sstep
   serialize_dict key_bits dict_set parse_hashmap hashmap_parse s_load_dict parse_aug_edge parse_fuel
-  detect_label_type s_label_kind nbitlen.
+  detect_label_type s_label_kind nbitlen
+  address address_of_str to_str address_eqb address_pyhash.
